@@ -142,8 +142,23 @@ func replayPath(ctx *vrun.Ctx, prop string, f *Factory, path []tlc.Step, cache u
 		ctx.Distinct(st.From.ID + ">" + st.To.ID)
 		where := fmt.Sprintf("step %d (%s %v) of scenario %s", si+1, op, last.F("b").Go(), f.String())
 
-		// --- drift (implementation layer): recorded, never a verdict
-		if tip != pred.F("tip").Int() {
+		// --- drift (implementation layer): recorded, never a verdict.  When the
+		// real node legitimately took another of the outcomes the property
+		// allows (a tie between candidates, decided by map iteration order in
+		// the code and by the lowest id in the model), the rest of the path
+		// describes a different node: the step is still judged, then the path
+		// ends.
+		diverged := tip != pred.F("tip").Int()
+		if op == "header" {
+			realAcc := res == RMain || res == RSide
+			predAcc := pred.F("ret").Str() != "rej"
+			if realAcc != predAcc && exp.F("hdrAccept").Str() == "any" {
+				// which invalid blocks the node already knows depends on the same order
+				ctx.AddExtra("allowed_divergence_header", 1)
+				return nil
+			}
+		}
+		if diverged {
 			ctx.AddExtra("model_drift_tip", 1)
 		}
 
@@ -259,6 +274,10 @@ func replayPath(ctx *vrun.Ctx, prop string, f *Factory, path []tlc.Step, cache u
 		}
 		prevChain = node.BestPath()
 		if prevChain == nil {
+			return nil
+		}
+		if diverged {
+			ctx.AddExtra("paths_ended_at_allowed_divergence", 1)
 			return nil
 		}
 	}
